@@ -386,13 +386,18 @@ def run_result(rng, rec, log, scratch, idx):
     try:
         with time_limit(60):
             result3 = optimize(S.build_scheme(jc3, maximum_number_function_evaluations=3, add_svd=False), verbose=False, raise_exception=True)
+    except (Exception, CaseTimeout) as e:  # noqa
+        rec.skip(f"overwrite step not applicable: second optimisation raised {type(e).__name__}")
+        return len(jc["datasets"]) >= 2
+    try:
+        # `loaded2` (read from this very folder) is still alive: an allowed overwrite must work all the same
         with warnings.catch_warnings():
             warnings.simplefilter("ignore")
             save_result(result3, second / "result.yml", saving_options=opts, allow_overwrite=True)
             loaded3 = load_result(second / "result.yml")
-    except (Exception, CaseTimeout) as e:  # noqa
-        rec.skip(f"overwrite step not applicable: {type(e).__name__}")
-        return len(jc["datasets"]) >= 2
+    except Exception as e:  # noqa
+        rec.violation(f"result3-after-overwrite:raises:{type(e).__name__}", ctx, f"saving another result over a folder whose previous content is still loaded (allow_overwrite=True), then loading it: {type(e).__name__}: {str(e)[:200]}")
+        return None
     rec.count("results_overwritten_and_reloaded")
     if not compare_result(result3, loaded3, opts, rec, ctx, tag="result3-after-overwrite"):
         return None
